@@ -87,6 +87,11 @@ def swap_domain(mods, p):
             continue
         if orelse and fixes._orelse_preferred_as_body(body, orelse):
             n += 1
+    # the text back end fails to splice a multi-line replacement at an indentation of 16 columns or more
+    # ("Failed to replace code", the pass is rolled back; C14's territory): keep every site above that
+    # (an implicit swap nests the rest of the block one level deeper)
+    if M.depth(p) + (1 if n else 0) > 3:
+        return False
     return n <= 1
 
 
@@ -616,7 +621,14 @@ def _sig_common_stmt_hoisted_over_test(case):
             other = s[3] if s[3] else blk[i + 1:]
             if not other or not s[2]:
                 continue
-            for a, b in (([s[2][0]], [other[0]]), (_first_leaves(s[2][0]), _first_leaves(other[0]))):
+            # the rule is iterated: after the common first statement is moved, the next common one is first
+            k = 0
+            while k < min(len(s[2]), len(other)) and s[2][k] == other[k]:
+                if _interferes(s[2][k], s[1]):
+                    return True
+                k += 1
+            if k < min(len(s[2]), len(other)):
+                a, b = _first_leaves(s[2][k]), _first_leaves(other[k])
                 if a and b and all(x == a[0] for x in a + b) and _interferes(a[0], s[1]):
                     return True
     return False
@@ -745,7 +757,7 @@ def check(run: common.Run):
             if q != p:
                 fired[name] += 1
                 hist[f"fired:{name}"] += 1
-            elif quick and len(rule_items) >= 0 and p in rnds_set:
+            elif quick and p in rnds_set:
                 # quick tier: keep only a quota of random programs on which the rule does nothing
                 unfired_random += 1
                 if unfired_random > 60:
